@@ -2,7 +2,7 @@
 """print the markdown table of seeded changes (DESIGN.md section 13) from /verif/seeded/*/meta.json"""
 import json,glob,os,re
 rows=[]
-for d in sorted(glob.glob('/verif/seeded/*/')):
+for d in sorted(glob.glob('/verif/seeded/C*/')):
     m=json.load(open(d+'meta.json'))
     label=os.path.basename(d.rstrip('/'))
     what=''
